@@ -193,6 +193,15 @@ func (app *App) processSubAppsRoutes() {
 				continue
 			}
 
+			// The sub-app's own mounts must be expanded before its routes are copied. The loop over appList above
+			// does not reach every sub-app: two apps mounted at the same full path (a sub-app mounted at "/" inside
+			// a sub-app mounted at "/") share one key there.
+			if subApp := route.group.app; subApp.hasMountedApps() {
+				subApp.mountFields.subAppsRoutesAdded.Do(func() {
+					subApp.processSubAppsRoutes()
+				})
+			}
+
 			// Create a slice to hold the sub-app's routes
 			subRoutes := make([]*Route, len(route.group.app.stack[m]))
 
